@@ -537,6 +537,8 @@ def gmrf_cases(pd, dim, bc, order, rng, nvec=2, big=False, mdi=None):
     sig = gmrf_class_signature(pd, dim, bc, order) if fail else ""
     if fail and big and bc in ("periodic", "neumann") and (sig == SIG_RANK_OTHER or int(g._rank) == true_rank):
         sig = SIG_BIGDIM          # the rank is right (or not in a rank class): only the regularised log-determinant is off
+    elif fail and not big and int(g._rank) == true_rank:
+        sig = SIG_RANK_OTHER      # right rank, wrong log-determinant outside the regularised branch: not one of the rank classes
     e_obs = math.exp(logdet) if finite and logdet < 600 else 0.0
     expr = "check_true_rank_st %s %s %s && check_true_expdet_st %s %s %s" % (cst(), args, cnat(int(g._rank)), cst(), args, cq(e_obs))
     if repair_state()[1] and order == 2 and bc == "neumann":
